@@ -158,8 +158,8 @@ def run(prog: Program, res: Result, tier: str) -> None:
           for k, v in zip(d.keys, d.values)}
     if ok and zm.get("STEREOZ") == "False" and zm.get("STEREOE") == "True":
         res.ok("T-TRANSVERSAL", inst, fi.loc())
-    elif not located and zm.get("STEREOZ") == "False" and \
-            zm.get("STEREOE") == "True":
+    elif (not located and zm.get("STEREOZ") == "False"
+          and zm.get("STEREOE") == "True") or (not zm and not located):
         res.unrecognised("T-TRANSVERSAL", inst, fi.loc(),
                          "the re-ordering applied for STEREOE (`if invert:` "
                          "re-indexing or a choice between two orderings) was "
